@@ -38,6 +38,12 @@ def gen(rng, tier, idx):
     npts = [rng.randint(5, 8), rng.randint(5, 8), rng.randint(7, 9), rng.randint(max(5, vdeg + 2), 9)]
     ckw = phys.gen_constants(rng, amplified=True, npts=npts)
     ckw['splineDegrees'] = [3, 3, 3, vdeg]
+    # with the default vMax = 7.32 the equilibrium is ~1e-12 at the velocity bounds and the fEq fill value
+    # would be invisible: cut the velocity domain (and heat the ions) so that it is O(1e-2..1e-1) there
+    vmax = rng.choice([7.32, 3.0, 2.0, 1.5])
+    ckw['vMax'] = vmax
+    ckw['vMin'] = -vmax
+    ckw['CTi'] = rng.choice([1.0, 1.0, 3.0])
     grids = phys.pick_grids(rng, npts, rng.choice([1, 2, 2, 3]))
     if rng.random() < 0.25 or not grids:
         grids = [[1, 1]] + grids
@@ -143,6 +149,8 @@ def run(case, tape=None):
               'dt_negative' if case['dtsign'] < 0 else 'dt_positive': 1}
     if ckw.get('iotaVal'):
         probes['iota_nonzero'] = 1
+    if ckw.get('vMax', 7.32) < 7:
+        probes['short_velocity_domain'] = 1
     return M.finish(extra=dict(nontrivial=case['P'] > 1, probes=probes))
 
 
